@@ -25,7 +25,8 @@ PROP = "C05"
 LEVEL = "exploration"
 WIDTHS = [1, 2, 3, 4, 7, 8]
 # "view" / "viewvar": the target is a typed view (.signed / .unsigned / .bitvector) of a signal / variable whose own type differs
-FORMS = ["assign", "next", "var", "value", "push", "pushattr", "slice", "element", "ite", "ret", "port", "view", "viewvar"]
+FORMS = ["assign", "next", "var", "value", "push", "pushattr", "slice", "element", "ite", "ret", "port", "view", "viewvar", "itefull", "itenull", "retfull", "retnull"]
+MERGE_LIT = {"itefull": "Full", "itenull": "Null", "retfull": "Full", "retnull": "Null"}  # the other branch of the merge is a literal
 VIEW_ROOT = {"S": "U", "U": "S", "BV": "U"}
 VIEW_ATTR = {"S": "signed", "U": "unsigned", "BV": "bitvector"}
 LIT_FORMS = ["assign", "var", "push", "init", "element"]
@@ -103,7 +104,7 @@ def lit_value(lit, t):
 def expected(c):
     """accept | reject | either"""
     s, t, f = tuple(c["src"]), tuple(c["tgt"]), c["form"]
-    if f in ("ite", "ret", "port"):
+    if f in ("ite", "ret", "port") or f in MERGE_LIT:
         return "either"
     if s[0] == "lit2":
         ea = expected({"src": ["lit", s[1]], "tgt": c["tgt"], "form": "assign"})
@@ -154,7 +155,7 @@ def render_src(c):
     lit = s[0] == "lit"
     H = ["from __future__ import annotations", "import cohdl", "from cohdl import Bit, BitVector, Unsigned, Signed, Port, Signal, Variable, Null, Full, true, false", "from cohdl import std", ""]
     src = lit_value(s[1], t)[0] if lit else "self.s"
-    if f == "ret":
+    if f in ("ret", "retfull", "retnull"):
         H += ["def merge(c, a, b):", "    if c:", "        return a", "    return b", ""]
     if f == "port":
         H += ["class Sub(cohdl.Entity):", f"    i = Port.input({tstr(t)})", f"    x = Port.output({tstr(t)})", "    def architecture(self):", "        @std.concurrent", "        def logic():", "            self.x <<= self.i", ""]
@@ -206,6 +207,10 @@ def render_src(c):
         B = ["@std.concurrent", "def p():", f"    self.o <<= ({src} if self.c else self.t0)"]
     elif f == "ret":
         B = ["@std.concurrent", "def p():", f"    self.o <<= merge(self.c, {src}, self.t0)"]
+    elif f in ("itefull", "itenull"):
+        B = ["@std.concurrent", "def p():", f"    self.o <<= ({src} if self.c else {MERGE_LIT[f]})"]
+    elif f in ("retfull", "retnull"):
+        B = ["@std.concurrent", "def p():", f"    self.o <<= merge(self.c, {src}, {MERGE_LIT[f]})"]
     elif f == "port":
         B = [f"Sub(i={src}, x=self.o)"]
     elif f == "init":
@@ -310,6 +315,18 @@ def simulate(c, design, seed, idx):
         if not ok:
             return "value-not-preserved", {"source_value": sv if not lit else s[1], "target_pattern": got, "source": tstr(s) if not lit else s[1], "target": tstr(t), "form": f}, checked
         d.half()
+        if f in ("ite", "ret") or f in MERGE_LIT:
+            # the other branch of the merge: the target's own type (t0) or a literal that fills the TARGET's width
+            inp0 = dict(inp, c=0)
+            d.clock(inp0)
+            d.half()
+            d.clock(inp0)
+            got0 = d.get("o")
+            want0 = inp["t0"] if f in ("ite", "ret") else ((1 << wt) - 1 if MERGE_LIT[f] == "Full" else 0)
+            checked += 1
+            if got0 != want0:
+                return "value-not-preserved", {"branch": "else", "other_branch": "t0" if f in ("ite", "ret") else MERGE_LIT[f], "expected_pattern": want0, "target_pattern": got0, "source": tstr(s) if not lit else s[1], "target": tstr(t), "form": f}, checked
+            d.half()
     pr = d.problems()
     if pr:
         return pr[0], pr[1], checked
